@@ -1159,10 +1159,24 @@ func (ss *ServerSession) handleRequestInner(sc *ServerConn, req *base.Request) (
 					th.ClientPorts = inTH.ClientPorts
 					th.ServerPorts = &[2]int{sc.s.udpRTPListener.port(), sc.s.udpRTCPListener.port()}
 				} else {
+					// the stream may have been closed in the meanwhile
+					// (ServerStream.Close() destroys the multicast writers)
+					mip, mrtpPort, mrtcpPort, ok := stream.multicastParams(medi)
+					if !ok {
+						if ss.state == ServerSessionStateInitial {
+							ss.setuppedTransport = nil
+						}
+						ss.propsMutex.Unlock()
+
+						return &base.Response{
+							StatusCode: base.StatusBadRequest,
+						}, liberrors.ErrServerStreamClosed{}
+					}
+
 					th.Delivery = new(headers.TransportDeliveryMulticast)
 					th.TTL = new(uint(127))
-					th.Destination2 = new(stream.medias[medi].multicastWriter.ip.String())
-					th.Ports = &[2]int{stream.medias[medi].multicastWriter.rtpPort, stream.medias[medi].multicastWriter.rtcpPort}
+					th.Destination2 = new(mip.String())
+					th.Ports = &[2]int{mrtpPort, mrtcpPort}
 				}
 
 			default: // TCP
